@@ -13,8 +13,8 @@ def gs_names(K=4):
     return {n: i + 1 for i, n in enumerate(names)}
 
 
-def gs_record(names, K, maxcls, dn=1, with_d=True, dens=False):
-    return {"K": K, "maxcls": maxcls,
+def gs_record(names, K, maxcls, dn=1, with_d=True, dens=False, variant="mp"):
+    return {"K": K, "maxcls": maxcls, "variant": variant,
             "t": [names[f"{tn.gs_amplitude}{n}"] for n in range(1, K + 1)],
             "tcc": [names[f"{tn.gs_amplitude}{n}cc"] for n in range(1, K + 1)],
             "E": [names[f"Egs{n}"] for n in range(0, K + 2)],
